@@ -13,7 +13,7 @@
 //!   3. the collector is scripted for the requests of that batch, the plugs are released,
 //!   4. flush (or drop), then the collector log is judged.
 
-use collector::{Collector, Decision, Outcome, Phase, RequestLog, Signal, Transport};
+use collector::{Abort, Collector, Decision, Outcome, Phase, RequestLog, Signal, Transport};
 use emit::Emitter as _;
 use serde::{Deserialize, Serialize};
 use std::collections::{BTreeMap, BTreeSet};
@@ -117,6 +117,12 @@ pub enum Fault {
     WedgeReading,
     /// the same, and it stops reading the connection too
     WedgeSilent,
+    /// the response HEAD is sent (gRPC: HEADERS 200), then the response is cut off instead of completed:
+    /// RST_STREAM, GOAWAY or the connection dropped — no grpc-status ever arrives (HTTP/1: a 200 whose announced
+    /// body never comes because the connection closes: a control, the status line is the acknowledgement)
+    AbortAfterHeaders(Abort),
+    /// the same after a fragment of the response body
+    AbortMidBody(Abort),
 }
 
 impl Fault {
@@ -133,6 +139,8 @@ impl Fault {
             Fault::StallAfterHeaders => "stall-after-headers",
             Fault::StallMidBody => "stall-mid-body",
             Fault::WedgeReading | Fault::WedgeSilent => "wedged-connection",
+            Fault::AbortAfterHeaders(_) => "abort-after-headers",
+            Fault::AbortMidBody(_) => "abort-mid-body",
         }
     }
 
@@ -149,6 +157,8 @@ impl Fault {
             Fault::StallMidBody => Decision::StallMidBody,
             Fault::WedgeReading => Decision::WedgeConnection { keep_reading: true },
             Fault::WedgeSilent => Decision::WedgeConnection { keep_reading: false },
+            Fault::AbortAfterHeaders(how) => Decision::AbortAfterHeaders { how: *how },
+            Fault::AbortMidBody(how) => Decision::AbortMidBody { how: *how },
         }
     }
 }
@@ -224,7 +234,7 @@ impl Scenario {
             .flatten()
             .map(|s| {
                 s.faults.len() as u32
-                    + s.faults.iter().filter(|f| matches!(f.fault, Fault::AckThenClose | Fault::StallAfterHeaders | Fault::StallMidBody)).count() as u32
+                    + s.faults.iter().filter(|f| matches!(f.fault, Fault::AckThenClose | Fault::StallAfterHeaders | Fault::StallMidBody | Fault::AbortAfterHeaders(_) | Fault::AbortMidBody(_))).count() as u32
             })
             .max()
             .unwrap_or(0)
@@ -683,6 +693,18 @@ fn decision_label(d: &Decision, transport: Transport) -> &'static str {
         Decision::StallMidBody => "http1-stall-mid-body",
         Decision::WedgeConnection { .. } if transport == Transport::Grpc => "grpc-wedged-connection",
         Decision::WedgeConnection { .. } => "http1-wedged-connection",
+        Decision::AbortAfterHeaders { how } if transport == Transport::Grpc => match how {
+            Abort::RstStream => "grpc-abort-after-headers/rst",
+            Abort::Goaway => "grpc-abort-after-headers/goaway",
+            Abort::DropConnection => "grpc-abort-after-headers/drop",
+        },
+        Decision::AbortMidBody { how } if transport == Transport::Grpc => match how {
+            Abort::RstStream => "grpc-abort-mid-body/rst",
+            Abort::Goaway => "grpc-abort-mid-body/goaway",
+            Abort::DropConnection => "grpc-abort-mid-body/drop",
+        },
+        Decision::AbortAfterHeaders { .. } => "http1-abort-after-headers",
+        Decision::AbortMidBody { .. } => "http1-abort-mid-body",
         Decision::Hold(_) => "hold",
     }
 }
@@ -748,7 +770,7 @@ pub fn judge(sc: &Scenario, obs: &Observed, cx: &mut Cx) -> Result<Result<(), St
             } else if r.decision == Decision::AckThenClose {
                 any_failed = true;
                 cx.class("fault:ack-then-close");
-            } else if matches!(r.decision, Decision::StallAfterHeaders | Decision::StallMidBody) {
+            } else if matches!(r.decision, Decision::StallAfterHeaders | Decision::StallMidBody | Decision::AbortAfterHeaders { .. } | Decision::AbortMidBody { .. }) {
                 // HTTP/1 control: acknowledged by its status line, the connection is useless afterwards
                 any_failed = true;
                 cx.class(&format!("fault:{}", decision_label(&r.decision, r.transport)));
@@ -897,7 +919,7 @@ pub fn judge(sc: &Scenario, obs: &Observed, cx: &mut Cx) -> Result<Result<(), St
         let no_failure = log
             .iter()
             .filter(|r| r.signal == Some(*s))
-            .all(|r| r.outcome == Outcome::Acked && !matches!(r.decision, Decision::AckThenClose | Decision::StallAfterHeaders | Decision::StallMidBody));
+            .all(|r| r.outcome == Outcome::Acked && !matches!(r.decision, Decision::AckThenClose | Decision::StallAfterHeaders | Decision::StallMidBody | Decision::AbortAfterHeaders { .. } | Decision::AbortMidBody { .. }));
         // ... and none failed on the client side either (by emit's own count; only known when the
         // emitter was still alive at the end)
         let client_failures = if after_drop { None } else { obs.client_failed.get(s).copied() };
